@@ -9,23 +9,23 @@ SHORT = {
     'C01': 'frame <= 10 / <= 8 code points; trees depth 2 width 2; attachment counts 0..12',
     'C02': '1 message (2 without ack) x 2 impl x 2 serializers x 2 directions x 3 ack modes',
     'C03': '2^7 pre-states x 56 ops (incl. a newcomer named like a room) x 9 probes',
-    'C04': '2 ops, 16 configurations; 6 pairs of concurrent causes (+ bystander traffic)',
+    'C04': '2 ops, 16 configurations; 6 pairs of concurrent causes (+ bystander traffic, + a bystander\'s refused CONNECT with a late second cause)',
     'C05': '1 event (2 after a raising handler), 7 responsible parties',
-    'C06': '3 ops + epilogue, symbolic ids, 1 raising callback; call() orders',
+    'C06': '3 ops + epilogue, symbolic ids never reissued, 1 raising callback; call() orders incl. a concurrent emit; callbacks that use the server',
     'C07': '3 clients, 2 hosts, 2 ops; k <= 3 first connections arriving together',
     'C08': 'connect patterns (incl. default namespaces) x life of 2',
     'C09': '1 event; 4 ops; message-per-task deliveries',
-    'C10': '5 waits over the reals; 4 causes, efforts counted',
-    'C11': '3 ops + fault index (Exception / CancelledError) + loss (also during a handler)',
+    'C10': '5 waits over the reals (parameters also through the constructor); 4 causes, efforts counted, connect again after giving up, loss inside a binary event',
+    'C11': '3 ops + fault index (Exception / CancelledError / BaseException interrupt) + loss (also during a handler or a room emit with callback)',
     'C12': '1-2 hostile frames with bystander traffic (also during the offender\'s handlers); 100-digit runs',
-    'C13': 'all 2^6 registries x events incl. "*" x namespaces incl. "*"',
+    'C13': 'all 2^6 registries x events incl. "*" x namespaces incl. "*"; one late registration',
     'C14': 'triples of 26/22/8 ops; pairs of pub/sub messages',
     'C15': '1 item (2 after a fault); Redis: 2 broker events, <= 8 failing reconnections, 2 publishes',
     'C16': '3 ops incl. nested blocks, empty save, duplicate CONNECT',
     'C17': 'all subsets x positional prefixes, registered twice',
     'C18': '12 payloads x 5 configs; 2 app ops; non-default admin namespace',
-    'C19': '8 scenarios x all schedules; plans of 4 ops on the real Client',
-    'C20': 'all pairs of 3 causes + other-namespace, default and pub/sub manager',
+    'C19': '10 scenarios x all schedules (incl. untimed receive at the end); plans of 4 ops on the real Client',
+    'C20': 'all pairs of 3 causes + other-namespace, default and pub/sub manager; 5 pairs line by line inside the manager look-ups (<= 2 pre-emptions)',
 }
 
 
